@@ -210,6 +210,28 @@ def gen_space(r, n, family):
     return c
 
 
+def pts_volume(r, n):
+    """tie-free generic data for the high-volume leg: uniform / bell-shaped / heavy-tailed integer coordinates"""
+    kind = r.below(5)
+    d = r.choice([1, 2, 2, 2, 3])
+    if kind <= 1:
+        return [[r.below(1 << 20) for _ in range(d)] for _ in range(n)]
+    if kind == 2:
+        return [[sum(r.below(1 << 18) for _ in range(4)) for _ in range(d)] for _ in range(n)]
+    if kind == 3:
+        def co():
+            e = r.below(20)
+            return ((1 << e) + r.below(1 << e)) * (1 if r.chance(1, 2) else -1)
+        return [[co() for _ in range(d)] for _ in range(n)]
+    centres = [[r.below(1 << 20) for _ in range(d)] for _ in range(r.range(2, 4))]
+    spread = [1 << r.range(8, 18) for _ in centres]
+    out = []
+    for _ in range(n):
+        c = r.below(len(centres))
+        out.append([centres[c][t] + r.below(spread[c]) for t in range(d)])
+    return out
+
+
 FAMILIES = ["lattice", "grid", "dups", "clustered", "generic", "tree", "path", "ultra", "wide",
             "kernel-lin", "kernel-ultra", "kernel-path", "coincident"]
 
